@@ -649,12 +649,15 @@ def _validate_raises_on_asymmetry(repo, ci) -> bool:
     r = ci.lookup("validate_proposal")
     if r is None:
         return False
-    g = CFG(r[1])
-    for t in g.tests():
-        if unparse(t.ast).replace(" ", "") == "self.proposal.is_symmetric":
-            falses = [m for m, lab in g.succ[t.id] if lab == "F"]
-            if falses and all(g.nodes[m].kind == "raisestmt" for m in falses):
-                return True
+    from .common import canon_fn
+    # as written, and with the private helpers of the class inlined and their single-assignment temporaries substituted (a shared `_validate_...` helper)
+    for fn in (r[1], canon_fn(repo, ci, r[1], 3)):
+        g = CFG(fn)
+        for t in g.tests():
+            if unparse(t.ast).replace(" ", "") == "self.proposal.is_symmetric":
+                falses = [m for m, lab in g.succ[t.id] if lab == "F"]
+                if falses and all(g.nodes[m].kind == "raisestmt" for m in falses):
+                    return True
     return False
 
 
